@@ -319,15 +319,31 @@ def desugar_namedtuples(trees: dict[str, ast.Module]) -> int:
     return n
 
 
+def _atom(e: ast.AST) -> bool:
+    """An element that denotes the same thing wherever it is written: a literal, a plain name (a builtin, a class, another
+    module-level constant) or a dotted name (`os.path.sep`, `FutureState.FINISHED`)."""
+    if isinstance(e, ast.Constant):
+        return True
+    if isinstance(e, ast.Name):
+        return True
+    if isinstance(e, ast.Attribute):
+        return _dotted(e) is not None
+    if isinstance(e, ast.Call) and (_dotted(e.func) or '') == 'cast' and len(e.args) == 2:
+        return _atom(e.args[1])
+    return False
+
+
 def _literal_constant(v: ast.AST) -> Optional[ast.AST]:
     """The expression to substitute for a private literal constant, or None."""
     if isinstance(v, ast.Constant):
         return v
-    if isinstance(v, (ast.Tuple, ast.Set, ast.List)) and all(isinstance(e, ast.Constant) for e in v.elts):
+    if isinstance(v, (ast.Tuple, ast.Set, ast.List)) and all(_atom(e) for e in v.elts):
+        return v
+    if isinstance(v, ast.Call) and (_dotted(v.func) or '') == 'cast' and len(v.args) == 2 and _atom(v.args[1]):
         return v
     if isinstance(v, ast.Call) and (_dotted(v.func) or '') in ('frozenset', 'set', 'tuple') and len(v.args) == 1 and not v.keywords:
         inner = v.args[0]
-        if isinstance(inner, (ast.Tuple, ast.Set, ast.List)) and all(isinstance(e, ast.Constant) for e in inner.elts):
+        if isinstance(inner, (ast.Tuple, ast.Set, ast.List)) and all(_atom(e) for e in inner.elts):
             if _dotted(v.func) in ('frozenset', 'set'):
                 return ast.Set(elts=list(inner.elts))
             return ast.Tuple(elts=list(inner.elts), ctx=ast.Load())
@@ -354,6 +370,15 @@ def inline_new_constants(tree: ast.Module) -> int:
     if not consts:
         return 0
     n = 0
+    # constants built from other new constants: resolve inside-out
+    for _round in range(3):
+        for k, v in list(consts.items()):
+            class _In(ast.NodeTransformer):
+                def visit_Name(self, node: ast.Name):
+                    if isinstance(node.ctx, ast.Load) and node.id in consts and node.id != k:
+                        return copy.deepcopy(consts[node.id])
+                    return node
+            consts[k] = _In().visit(copy.deepcopy(v))
 
     class T(ast.NodeTransformer):
         def visit_Name(self, node: ast.Name):
@@ -990,6 +1015,213 @@ def drop_forwarding_adapters(trees: dict[str, ast.Module]) -> int:
             refs = sum(1 for tt in trees.values() for x in ast.walk(tt) if isinstance(x, ast.Name) and x.id == cname and isinstance(x.ctx, ast.Load))
             if refs == 0:
                 t.body.remove(c)
+            n += 1
+        ast.fix_missing_locations(t)
+    return n
+
+
+# ----------------------------------------------------------------------------------------
+# R0: new private read-only properties (`@property def _running_count(self): return len(self._running)`) are read through
+
+KNOWN_PROPERTIES = frozenset({'done', 'cancelled', 'result'})      # properties of the pinned tree (anchors of rules)
+
+
+def inline_private_properties(trees: dict[str, ast.Module]) -> int:
+    n = 0
+    props: dict[str, tuple] = {}
+    counts: dict[str, int] = {}
+    same_defs: dict[str, list] = {}
+    for t in trees.values():
+        for c in ast.walk(t):
+            if not isinstance(c, ast.ClassDef):
+                continue
+            for m in c.body:
+                if isinstance(m, ast.FunctionDef) and any((_dotted(d) or '') == 'property' for d in m.decorator_list) \
+                        and m.name.startswith('_') and not m.name.startswith('__') and m.name not in KNOWN_PROPERTIES and len(m.args.args) == 1:
+                    body = [s for s in m.body if not (isinstance(s, ast.Expr) and isinstance(s.value, ast.Constant))]
+                    if len(body) == 1 and isinstance(body[0], ast.Return) and body[0].value is not None:
+                        sn = m.args.args[0].arg
+                        if m.name in props and ast.dump(props[m.name][3]) == ast.dump(body[0].value) and props[m.name][2] == sn:
+                            same_defs.setdefault(m.name, []).append(m)      # the same property on a sibling class
+                            continue
+                        counts[m.name] = counts.get(m.name, 0) + 1
+                        props[m.name] = (c, m, sn, body[0].value)
+                    else:
+                        counts[m.name] = counts.get(m.name, 0) + 10
+    # a name used for anything else in the package (another attribute, a method, a setter) is left alone
+    for t in trees.values():
+        for x in ast.walk(t):
+            if isinstance(x, ast.Attribute) and x.attr in props and isinstance(x.ctx, (ast.Store, ast.Del)):
+                counts[x.attr] = counts.get(x.attr, 0) + 10
+    props = {k: v for k, v in props.items() if counts.get(k, 0) == 1}
+    if not props:
+        return 0
+
+    class T(ast.NodeTransformer):
+        def visit_Attribute(self, node: ast.Attribute):
+            nonlocal n
+            self.generic_visit(node)
+            if isinstance(node.ctx, ast.Load) and node.attr in props and _dotted(node.value) is not None:
+                c, m, sn, expr = props[node.attr]
+                n += 1
+                e = _SubstNames({sn: node.value}).visit(copy.deepcopy(expr))
+                return ast.copy_location(e, node)
+            return node
+    for t in trees.values():
+        # do not rewrite inside the property definitions themselves
+        T().visit(t)
+        for c in ast.walk(t):
+            if isinstance(c, ast.ClassDef):
+                c.body = [m for m in c.body if not (isinstance(m, ast.FunctionDef) and m.name in props
+                                                    and (props[m.name][1] is m or any(m is d for d in same_defs.get(m.name, []))))] or [ast.Pass()]
+        ast.fix_missing_locations(t)
+    return n
+
+
+# ----------------------------------------------------------------------------------------
+# E0: "method object": `return _Helper(a, b).run()` where the private class only exists to carry the locals of one long
+#     function  ->  the function again (attributes become locals, the helper's other methods are inlined at their calls)
+
+def dissolve_method_objects(trees: dict[str, ast.Module]) -> int:
+    n = 0
+    for t in trees.values():
+        classes = {c.name: c for c in t.body if isinstance(c, ast.ClassDef)}
+        for wname, w in list(classes.items()):
+            if not wname.startswith('_') or wname.startswith('__') or w.decorator_list or w.bases:
+                continue
+            meths = {s.name: s for s in w.body if isinstance(s, ast.FunctionDef)}
+            others = [s for s in w.body if not isinstance(s, ast.FunctionDef) and not (isinstance(s, ast.Expr) and isinstance(s.value, ast.Constant))
+                      and not (isinstance(s, ast.AnnAssign) and s.value is None)]
+            if others or '__init__' not in meths or any(m.startswith('__') and m != '__init__' for m in meths):
+                continue
+            # exactly one use in the package: <Class>(args).<method>(args) as the value of a return / assignment / expression statement
+            uses = []
+            for tt in trees.values():
+                for x in ast.walk(tt):
+                    if isinstance(x, ast.Name) and x.id == wname and isinstance(x.ctx, ast.Load):
+                        uses.append(x)
+            if len(uses) != 1:
+                continue
+            site = None
+            for fn in [f for f in ast.walk(t) if isinstance(f, ast.FunctionDef)]:
+                for owner in ast.walk(fn):
+                    for fld in ('body', 'orelse', 'finalbody'):
+                        blk = getattr(owner, fld, None)
+                        if not (isinstance(blk, list) and blk and isinstance(blk[0], ast.stmt)):
+                            continue
+                        for i, st in enumerate(blk):
+                            v = st.value if isinstance(st, (ast.Return, ast.Expr, ast.Assign)) else None
+                            if isinstance(v, ast.Call) and isinstance(v.func, ast.Attribute) and isinstance(v.func.value, ast.Call) \
+                                    and isinstance(v.func.value.func, ast.Name) and v.func.value.func.id == wname and v.func.attr in meths:
+                                site = (fn, blk, i, st, v)
+            if site is None:
+                continue
+            fn, blk, i, st, call = site
+            init, entry = meths['__init__'], meths[call.func.attr]
+            b = _bind_call(init, call.func.value, skip_self=True)
+            eb = _bind_call(entry, call, skip_self=True)
+            if b is None or eb is None:
+                continue
+            isn = init.args.args[0].arg
+            pref = '_' + wname.strip('_').lower() + '__'
+            attr_inits = []
+            ok = True
+            for s in init.body:
+                if isinstance(s, ast.Expr) and isinstance(s.value, ast.Constant):
+                    continue
+                tg = s.targets[0] if isinstance(s, ast.Assign) and len(s.targets) == 1 else (s.target if isinstance(s, ast.AnnAssign) and s.value is not None else None)
+                if isinstance(tg, ast.Attribute) and isinstance(tg.value, ast.Name) and tg.value.id == isn:
+                    attr_inits.append((tg.attr, s.value, s))
+                else:
+                    ok = False
+            attrs = {a for a, _v, _s in attr_inits}
+            if not ok:
+                continue
+
+            def localise(m: ast.FunctionDef, binding: dict, depth: int = 0):
+                """Body of method m with self.<attr> -> local names, parameters -> arguments, calls of sibling methods inlined."""
+                if depth > 3:
+                    return None
+                sn = m.args.args[0].arg
+                body = [copy.deepcopy(s) for s in m.body if not (isinstance(s, ast.Expr) and isinstance(s.value, ast.Constant))]
+                sub = _SubstNames(binding)
+
+                class Attrs(ast.NodeTransformer):
+                    def visit_Attribute(self, node):
+                        self.generic_visit(node)
+                        if isinstance(node.value, ast.Name) and node.value.id == sn and node.attr in attrs:
+                            return ast.copy_location(ast.Name(id=pref + node.attr, ctx=node.ctx), node)
+                        return node
+                out = []
+                for s in body:
+                    s = sub.visit(Attrs().visit(s))
+                    out.append(s)
+                # inline `self.other(args)` expression statements
+                def expand(block):
+                    res = []
+                    for s in block:
+                        if isinstance(s, ast.Expr) and isinstance(s.value, ast.Call) and isinstance(s.value.func, ast.Attribute) \
+                                and isinstance(s.value.func.value, ast.Name) and s.value.func.value.id == sn and s.value.func.attr in meths:
+                            callee = meths[s.value.func.attr]
+                            if any(isinstance(x, ast.Return) and x.value is not None for x in ast.walk(callee)):
+                                return None
+                            cb = _bind_call(callee, s.value, skip_self=True)
+                            if cb is None or not all(isinstance(v, (ast.Name, ast.Constant)) for v in cb.values()):
+                                return None
+                            inner = localise(callee, cb, depth + 1)
+                            if inner is None:
+                                return None
+                            res.extend(inner)
+                            continue
+                        for fld in ('body', 'orelse', 'finalbody'):
+                            sub_blk = getattr(s, fld, None)
+                            if isinstance(sub_blk, list) and sub_blk and isinstance(sub_blk[0], ast.stmt):
+                                e = expand(sub_blk)
+                                if e is None:
+                                    return None
+                                setattr(s, fld, e)
+                        for h in getattr(s, 'handlers', []) or []:
+                            e = expand(h.body)
+                            if e is None:
+                                return None
+                            h.body = e
+                        res.append(s)
+                    return res
+                out = expand(out)
+                if out is None:
+                    return None
+                # any remaining bare use of self means the object escapes
+                if any(isinstance(x, ast.Name) and x.id == sn for s in out for x in ast.walk(s)):
+                    return None
+                return out
+
+            body = localise(entry, eb)
+            if body is None:
+                continue
+            if not isinstance(st, ast.Return):
+                # the value of the call is the entry method's single trailing return
+                rets = [x for s in body for x in ast.walk(s) if isinstance(x, ast.Return)]
+                if len(rets) > 1 or (rets and rets[0] is not body[-1]):
+                    continue
+                if rets:
+                    last = body.pop()
+                    if isinstance(st, ast.Assign):
+                        body.append(ast.Assign(targets=st.targets, value=last.value))
+                    elif last.value is not None:
+                        body.append(ast.Expr(value=last.value))
+            sub_args = _SubstNames(b)
+            inits = []
+            for a, v, s0 in attr_inits:
+                asg = ast.Assign(targets=[ast.Name(id=pref + a, ctx=ast.Store())], value=sub_args.visit(copy.deepcopy(v)))
+                inits.append(asg)
+            new = inits + body
+            for x in new:
+                ast.copy_location(x, st)
+                for y in ast.walk(x):
+                    if isinstance(y, (ast.stmt, ast.expr, ast.ExceptHandler)) and not hasattr(y, 'lineno'):
+                        ast.copy_location(y, st)
+            blk[i:i + 1] = new
+            t.body.remove(w)
             n += 1
         ast.fix_missing_locations(t)
     return n
